@@ -26,6 +26,9 @@ func runC03(c *vlib.Check) {
 	c.Exhaustive = true
 }
 
+// c03Dirty: what a reused encoder has encoded before (every byte of its buffer non-zero where it matters).
+var c03Dirty = ttlv.Value{Tag: 0x420069, Value: ttlv.Struct{{Tag: 0x420008, Value: bytes.Repeat([]byte{0xA5}, 4099)}, {Tag: 0x42000A, Value: string(bytes.Repeat([]byte{0x7E}, 333))}}}
+
 func c03One(c *vlib.Check, t *enum.N, idx int) {
 	ref := refttlv.Generate(t)
 	c.Eval(ref, true)
@@ -51,6 +54,27 @@ func c03One(c *vlib.Check, t *enum.N, idx int) {
 	}
 	if !bytes.Equal(out, ref) {
 		c.Violation("bytes-differ:"+tname, fmt.Sprintf("library bytes differ from canonical encoding for %s", t), rep)
+		return
+	}
+	// the same through a reused encoder: a previous, longer message full of non-zero bytes, Clear(), then this tree
+	var reused []byte
+	if pv, site := vlib.Catch(func() {
+		enc := ttlv.NewTTLVEncoder()
+		enc.Any(c03Dirty)
+		enc.Clear()
+		enc.Any(conv.ToValue(t))
+		reused = append([]byte{}, enc.Bytes()...)
+	}); pv != nil {
+		c.Violation("encode-panic:reused:"+site, fmt.Sprintf("encoding on a reused encoder panicked: %v on %s", pv, t), rep)
+		return
+	}
+	if !bytes.Equal(reused, ref) {
+		rep["reused_hex"] = hex.EncodeToString(reused)
+		if _, err := refttlv.ParseStrict(reused); err != nil {
+			c.Violation("not-wellformed:reused-encoder:"+tname+":"+ErrClass(err), fmt.Sprintf("the encoding produced by a reused (cleared) encoder is rejected by the independent parser: %v; tree %s", err, t), rep)
+		} else {
+			c.Violation("bytes-differ:reused-encoder:"+tname, fmt.Sprintf("a reused (cleared) encoder produces different bytes for %s", t), rep)
+		}
 		return
 	}
 	// reverse direction: the independent generator's encoding decodes to the same tree
